@@ -15,7 +15,8 @@
    Every theorem is for ALL histories and ALL notification orders that keep the same elements. *)
 From Coq Require Import List Arith Bool.
 Import ListNotations.
-From ZI Require Import Model.Ro Model.SpecGraph Spec.SpecGraph Proofs.SpecGraph.
+From ZI Require Import Model.Ro Model.SpecGraph Model.SpecGraphPrim Spec.SpecGraph Proofs.SpecGraph.
+From ZI Require Import Gen.SpecGraphKernel Proofs.SpecGraphKernel Model.SpecGraphKeyed.
 
 (* S.isOrExtends(T)  <->  T is S, or reachable from S over the current bases, or the root *)
 Theorem C02_implied_iff_reachable : forall reorder : list node -> list node,
@@ -136,6 +137,96 @@ Theorem C02_op_ok_complete : forall reorder : list node -> list node,
 Proof. exact op_ok_complete_lemma. Qed.
 Print Assumptions C02_op_ok_complete.
 
+(* ---- the tie to the source TEXT.  Gen/SpecGraphKernel.v is regenerated on every run from class
+   Specification (interface.py) by the fail-closed translator harness/translate/specgraph.py; the
+   k_* functions below are that generated text.  Each of them does what the hand-written model the
+   theorems above are about does, for ALL states.  [state_equiv] (Model/SpecGraphPrim.v) compares
+   the function-valued fields pointwise. *)
+
+(* subscribe: the count goes up by one, a new key goes last *)
+Theorem C02_generated_subscribe_eq_model : forall st b x,
+  k_subscribe st b x = set_deps st b (dep_incr x (deps st b)).
+Proof. exact k_subscribe_eq. Qed.
+Print Assumptions C02_generated_subscribe_eq_model.
+
+(* unsubscribe: KeyError exactly for a missing key, otherwise the count goes down, deleted at 0 *)
+Theorem C02_generated_unsubscribe_eq_model : forall st b x,
+  (k_unsubscribe st b x = None <-> ~ In x (dep_keys (deps st b))) /\
+  (forall st', k_unsubscribe st b x = Some st' -> st' = set_deps st b (dep_decr x (deps st b))).
+Proof. exact k_unsubscribe_eq. Qed.
+Print Assumptions C02_generated_unsubscribe_eq_model.
+
+(* _calculate_sro (with Interface's override): ro over the bases' cached orders + root fix-up *)
+Theorem C02_generated_calculate_sro_eq_model : forall st x, k_calc st x = calc (gr st) (sro st) x.
+Proof. exact k_calc_eq. Qed.
+Print Assumptions C02_generated_calculate_sro_eq_model.
+
+(* changed, before the notification loop: clear and refill _implied, set __sro__ (and __iro__) *)
+Theorem C02_generated_changed_step_eq_model : forall st x originally_changed,
+  state_equiv (k_changed_step st x originally_changed) (recompute x st).
+Proof. exact k_changed_step_lemma. Qed.
+Print Assumptions C02_generated_changed_step_eq_model.
+
+(* changed with its recursive notification of every dependent *)
+Theorem C02_generated_changed_eq_model : forall reorder : list node -> list node,
+  (forall l y, In y (reorder l) <-> In y l) ->
+  forall fuel st x originally_changed,
+    state_equiv (k_changed reorder fuel st x originally_changed) (changed reorder fuel x st).
+Proof. exact k_changed_lemma. Qed.
+Print Assumptions C02_generated_changed_eq_model.
+
+(* __setBases: unsubscribe from the old bases, assign, subscribe to the new ones, changed() *)
+Theorem C02_generated_setBases_eq_model : forall reorder : list node -> list node,
+  (forall l y, In y (reorder l) <-> In y l) ->
+  forall st x bs, state_equiv (k_setBases reorder st x bs) (set_bases reorder x bs st).
+Proof. exact k_setBases_lemma. Qed.
+Print Assumptions C02_generated_setBases_eq_model.
+
+(* isOrExtends, extends(strict) and the value stored in __iro__ *)
+Theorem C02_generated_queries_eq_model : forall st S T strict,
+  k_isOrExtends st S T = isOrExtends st S T /\ k_extends st S T strict = extends st S T strict /\
+  k_iro_of st (get_sro st S) = get_iro st S.
+Proof. exact k_queries_eq. Qed.
+Print Assumptions C02_generated_queries_eq_model.
+
+(* equivalent states give the same answer to every query *)
+Theorem C02_state_equiv_same_answers : forall a b, state_equiv a b ->
+  forall S T strict, isOrExtends a S T = isOrExtends b S T /\ extends a S T strict = extends b S T strict /\
+    get_sro a S = get_sro b S /\ get_iro a S = get_iro b S /\ get_bases a S = get_bases b S /\
+    deps a S = deps b S.
+Proof. exact se_answers. Qed.
+Print Assumptions C02_state_equiv_same_answers.
+
+(* ---- finding F10 (recorded, not repaired).  Every theorem above reads object identity as
+   equality of creation numbers, i.e. ASSUMES the (__name__, __module__) keys of live interfaces
+   are unique.  Model/SpecGraphKeyed.v looks the dependents dictionaries up through a key function:
+   with the identity it is the model above ... *)
+Theorem C02_unique_keys_is_model : forall reorder st o,
+  step_k (fun x => x) reorder st o = step reorder st o.
+Proof. intros reorder st [x k bs|x bs|x]; reflexivity. Qed.
+Print Assumptions C02_unique_keys_is_model.
+
+(* ... and with two live specifications of equal key the coherence theorem is FALSE: 4 and 5 are
+   twins below 2; after 2.__bases__ = (3,) the twin subscribed second (5) and its dependent (6)
+   keep the order they had.  (corpus/C02/f10_equal_keys.json is this history on real interfaces;
+   the run reports it as KNOWN-FINDING F10.) *)
+Definition f10_key (x : node) : nat := if Nat.eqb x 5 then 4 else x.
+Definition f10_ops : list op :=
+  [NewSpec 2 true []; NewSpec 3 true []; NewSpec 4 true [2]; NewSpec 5 true [2]; NewSpec 6 true [5];
+   SetBases 2 [3]].
+
+Theorem C02_equal_keys_refuted :
+  exists (key : node -> nat) (ops : list op) (S : node),
+    hist_ok (fun l => l) init ops = true /\
+    let st := fold_left (step_k key (fun l => l)) ops init in
+    In S (live st) /\ get_sro st S <> fresh_sro (fuel_of (gr st)) root (gr st) S /\
+    isOrExtends st S 3 = false /\ isOrExtends (fold_left (step (fun l => l)) ops init) S 3 = true.
+Proof.
+  exists f10_key, f10_ops, 5. vm_compute. split; [reflexivity|]. split; [tauto|].
+  split; [discriminate|]. split; reflexivity.
+Qed.
+Print Assumptions C02_equal_keys_refuted.
+
 (* ---- non-vacuity: a diamond 4(2,3), 2(1), 3(1), 1(root) with a class-like 5(4) and an
    instance-like 6(5,7) below it; then the TOP of the diamond is rebased onto a new interface 8,
    a middle node is rebased, a leaf dies. *)
@@ -181,3 +272,13 @@ Example C02_ex_cycle_rejected :
   op_ok (fold_left (step ex_id) ex_ops init) (SetBases 1 [4]) = false
   /\ op_ok (fold_left (step ex_id) ex_ops init) (SetBases 1 [7]) = true.
 Proof. vm_compute. split; reflexivity. Qed.
+
+(* the generated __setBases, run on the state before the rebase of the top of the diamond, leaves
+   every specification answering as the model says *)
+Example C02_ex_generated_kernel :
+  let st := fold_left (step ex_id) (firstn 8 ex_ops) init in
+  let a := k_setBases ex_id st 1 [8] in
+  let b := step ex_id st (SetBases 1 [8]) in
+  map (sro a) (live a) = map (sro b) (live b) /\ map (implied a) (live a) = map (implied b) (live b)
+  /\ map (deps a) (live a) = map (deps b) (live b) /\ k_isOrExtends a 6 8 = true.
+Proof. vm_compute. repeat split. Qed.
